@@ -28,6 +28,13 @@ try:
 except Exception:
     pass
 
+# vstd preconditions of the form `op.requires(args)` on a CLOSURE passed to an Option/Result combinator (map, map_err, and_then, ...):
+# no run-time check corresponds to them (the repository's closures declare no `requires`), so their failure is a proof artefact
+# and needs a concrete witness before it is reported.  Extracted from vstd.vir of the pinned Verus (`strings vstd.vir`, a location
+# token followed by `FnWithRequiresEnsures requires`); unwrap/expect/index preconditions are NOT in this set - those are real panics.
+CLOSURE_PRE = {("std_specs/core.rs", 175), ("std_specs/option.rs", 212), ("std_specs/option.rs", 232), ("std_specs/option.rs", 244),
+               ("std_specs/option.rs", 268), ("std_specs/result.rs", 231), ("std_specs/result.rs", 244)}
+
 def label_props(label):
     head = label.split(".")[0]
     ids = [x for x in head.split("+") if re.match(r"^C\d\d$", x)]
@@ -122,7 +129,13 @@ def classify(run, lmap, fns_by_key):
         if name is None:
             base = (key or (fnmeta or {}).get("file", "?"))
             name = "%s.body.%s%s" % (base, re.sub(r"[^a-z]+", "_", kind.lower()).strip("_"), ("[" + label + "]") if label else "")
-        failures.append({"obligation": name, "kind": kind, "fn": key, "label": label, "props": sorted(props), "message": msg,
+        closure_pre = False
+        if msg.startswith("precondition not satisfied"):
+            for sp in spans:
+                fnm = sp.get("file_name", "")
+                for (cf, cl) in CLOSURE_PRE:
+                    if fnm.endswith(cf) and sp.get("line_start") == cl: closure_pre = True
+        failures.append({"obligation": name, "kind": kind, "fn": key, "label": label, "props": sorted(props), "message": msg, "closure_pre": closure_pre,
                          "line": prim["line_start"] if prim else None, "text": txt, "rendered": (d.get("rendered") or "")[:3000],
                          "src_file": (fnmeta or {}).get("file"), "src_line": (fnmeta or {}).get("src_line")})
     return failures, frontend, canary
@@ -181,6 +194,12 @@ def scan_assumptions(text):
         out[k] = len(re.findall(re.escape(k), text))
     return out
 
+BASELINE_PARAMS = {}
+try:
+    BASELINE_PARAMS = json.load(open(os.path.join(VERIF, "baseline_params.json")))
+except Exception:
+    pass
+
 def build_unit(src, out_path, stub_fns=(), drop_uses=(), drop_contract_fns=(), ext_consts=(), renames=None, inline_fns=()):
     os.environ["VERIF_REPO_SRC"] = src
     extract.REPO_SRC = src
@@ -188,7 +207,7 @@ def build_unit(src, out_path, stub_fns=(), drop_uses=(), drop_contract_fns=(), e
     shims = sorted(glob.glob(os.path.join(VERIF, "shims", "*.rs"))) + sorted(glob.glob(os.path.join(VERIF, "specs", "*.rs")))
     rx = re.compile(CONFIG["exclude"]) if CONFIG.get("exclude") else None
     inc = (lambda rel: not rx.search(rel)) if rx else None
-    return extract.build(inc, (), specs, shims, out_path, stub_fns=stub_fns, drop_uses=drop_uses, drop_contract_fns=drop_contract_fns, ext_consts=ext_consts, renames=renames, inline_fns=inline_fns)
+    return extract.build(inc, (), specs, shims, out_path, stub_fns=stub_fns, drop_uses=drop_uses, drop_contract_fns=drop_contract_fns, ext_consts=ext_consts, renames=renames, inline_fns=inline_fns, baseline_params=BASELINE_PARAMS)
 
 def obligations_for(ctx):
     """named obligations per property: labelled ensures clauses + one body-safety obligation per fn tagged safety=..."""
@@ -230,6 +249,7 @@ def main(argv):
         text, lines_meta, ctx = build_unit(a.src, unit)
         json.dump({"%s|%s::%s" % (f["file"], f["impl"], f["fn"]): f["body_hash"] for f in ctx.fn_index}, open(os.path.join(VERIF, "baseline_fns.json"), "w"), indent=0, sort_keys=True)
         json.dump({"%s|%s::%s" % (f["file"], f["impl"], f["fn"]): f.get("sig_norm", "") for f in ctx.fn_index}, open(os.path.join(VERIF, "baseline_sigs.json"), "w"), indent=0, sort_keys=True)
+        json.dump({"%s|%s::%s" % (f["file"], f["impl"], f["fn"]): f.get("params") for f in ctx.fn_index if f.get("params")}, open(os.path.join(VERIF, "baseline_params.json"), "w"), indent=0, sort_keys=True)
         print("baseline written"); return 0
     baseline = {}
     bp = os.path.join(VERIF, "baseline_fns.json")
@@ -348,7 +368,10 @@ def main(argv):
                     if "%s|%s::%s" % (sf, simpl, sname) == k:
                         ps |= set(fs.safety)
                         for l, _ in fs.requires + fs.ensures: ps |= set(label_props(l))
-            for l in f.get("labels", []): ps |= set(label_props(l))
+            for l in f.get("labels", []):
+                ps |= set(label_props(l))
+                ps |= set(LABEL_DEPS.get("%s#%s" % (k, l), {}).get("props", []))     # what rests on its clauses in callers' proofs
+            ps |= set(FN_BODY_PROPS.get(k, []))
             if not f.get("labels") and not f.get("safety"): ps |= set(SHARED)
             if pid in ps: out_of_reach.append((k, stub_reason.get(k, "")))
             elif k in cone.get(pid, ()): out_of_reach_cone.append((k, stub_reason.get(k, "")))
@@ -378,9 +401,13 @@ def main(argv):
         # does a refutation rest on dropped proof hints or on a new function without contract?  then it needs a concrete witness
         def weak(f):
             fn = fns_by_key.get(f["fn"] or "", {})
+            if f.get("closure_pre"): return "precondition of a closure passed to an Option/Result combinator (ghost-level only: no run-time check corresponds to it)"
             if pid not in f.get("props_direct", f["props"]): return "obligation of a callee that does not name this property (reached through the call cone only)"
             if fn.get("hints_dropped"): return "proof hints lost their anchors (%s)" % ", ".join(fn["hints_dropped"])
             bt = fn.get("body_text", "")
+            for k2 in drop_contracts:
+                n2 = fns_by_key.get(k2, {}).get("fn")
+                if n2 and re.search(r"\b%s\s*\(" % re.escape(n2), bt): return "calls `%s` whose contract no longer type-checks against its changed signature (contract dropped)" % n2
             for n in new_names:
                 if n in inlined_names: continue
                 if re.search(r"\b%s\s*\(" % re.escape(n), bt): return "calls new function `%s` which has no contract" % n
